@@ -4,10 +4,11 @@ EXTENDS Resources
 D2none == [a |-> <<>>, b |-> <<>>]
 D2dep == [a |-> <<>>, b |-> <<"a">>]
 D2cyc == [a |-> <<"b">>, b |-> <<"a">>]
+D2self == [a |-> <<>>, b |-> <<"b">>]      \* a is free, b depends on itself: <<a, b>> creates a, then ends with the cycle error
 A2 == {[a |-> TRUE, b |-> TRUE], [a |-> TRUE, b |-> FALSE], [a |-> FALSE, b |-> TRUE]}
 L2 == {<<"a">>, <<"b">>, <<"b", "a">>, <<"a", "b">>}
 Rank2(l) == IF l = <<"a">> THEN 1 ELSE IF l = <<"b">> THEN 2 ELSE IF l = <<"b", "a">> THEN 3 ELSE 4
-Programs2 == {pr \in [deps : {D2none, D2dep, D2cyc}, cache : [{"a", "b"} -> BOOLEAN], asyncf : A2,
+Programs2 == {pr \in [deps : {D2none, D2dep, D2cyc, D2self}, cache : [{"a", "b"} -> BOOLEAN], asyncf : A2,
                       params : [{"p1", "p2"} -> L2]] : Rank2(pr.params["p1"]) <= Rank2(pr.params["p2"])}
 \* ---- 3 resources, 3 invocations
 D3chain == [a |-> <<>>, b |-> <<"a">>, c |-> <<"b">>]
@@ -15,8 +16,8 @@ D3dia == [a |-> <<>>, b |-> <<"a">>, c |-> <<"b", "a">>]
 D3cyc == [a |-> <<"c">>, b |-> <<"a">>, c |-> <<"b">>]
 D3part == [a |-> <<>>, b |-> <<"c">>, c |-> <<"b">>]
 A3 == {[a |-> TRUE, b |-> TRUE, c |-> TRUE], [a |-> TRUE, b |-> FALSE, c |-> TRUE]}
-L3 == {<<"a">>, <<"b">>, <<"c">>, <<"c", "a">>}
-Rank3(l) == IF l = <<"a">> THEN 1 ELSE IF l = <<"b">> THEN 2 ELSE IF l = <<"c">> THEN 3 ELSE 4
+L3 == {<<"a">>, <<"b">>, <<"c">>, <<"c", "a">>, <<"a", "c">>}
+Rank3(l) == IF l = <<"a">> THEN 1 ELSE IF l = <<"b">> THEN 2 ELSE IF l = <<"c">> THEN 3 ELSE IF l = <<"c", "a">> THEN 4 ELSE 5
 Programs3 == {pr \in [deps : {D3chain, D3dia, D3cyc, D3part}, cache : [{"a", "b", "c"} -> BOOLEAN],
                       asyncf : A3, params : [{"p1", "p2", "p3"} -> L3]] :
                  Rank3(pr.params["p1"]) <= Rank3(pr.params["p2"]) /\ Rank3(pr.params["p2"]) <= Rank3(pr.params["p3"])}
